@@ -257,7 +257,7 @@ def judge(rx, text, fn, limit=None):
         fails.append(
             (
                 "[%s] more than %d scanner loop iterations for an input of %d chars (budget 4000+40*n^2 = %d%s): %s"
-                % (rx, lim, len(text), budget(len(text)), "" if limit is None else "; growth ladder limit 6x the half-sized input", _short(text)),
+                % (rx, lim, len(text), budget(len(text)), "" if limit is None else "; growth abort limit relative to the smaller sizes", _short(text)),
                 "budget:" + rx.split(":")[0],
             )
         )
@@ -472,18 +472,21 @@ def run_growth(fam, r0, full=True):
     fails = []
     info = {"family": fam, "rx": rx, "sizes": [], "steps": [], "cpu": [], "outcome": []}
     texts = {k: _growth_text(fam, r0 * k) for k in (1, 2, 4)}
-    prev = [None]
+    prevs = []  # (length, steps) of the sizes already run
 
     def one(text, first_pass=True):
-        # Abort limit: the absolute budget, and (so that a hang at a large size is noticed quickly) at most 6x the steps of
-        # the previous, half-sized rung of the ladder. The verdict rule proper (steps(4n) <= 20*steps(n)) is applied below.
-        lim = budget(len(text))
-        if first_pass and prev[0] is not None:
-            lim = min(lim, 6 * max(prev[0], 2000))
+        # Abort limit: the absolute budget and, so that a hang at a large size is noticed quickly, a generous bound relative
+        # to the sizes already run: 20 x their steps (at least 300 per char) scaled quadratically to this length, maximum
+        # over all of them (robust against parity effects such as an odd number of quotes being rejected early).
+        # The verdict rule proper (steps(4n) <= 20*steps(n)) is applied below.
+        n = len(text)
+        lim = budget(n)
+        if prevs:
+            lim = min(lim, int(max(20 * max(st, 300 * ln) * max(1.0, n / ln) ** 2 for ln, st in prevs)))
         t0 = time.process_time()
         out, f, steps = judge(rx + ":" + fam, text, fn, limit=lim)
         if first_pass:
-            prev[0] = steps
+            prevs.append((max(1, n), steps))
         return time.process_time() - t0, out, f, steps
 
     res = {}
